@@ -34,11 +34,13 @@ VARIABLES l,
           dirty,     \* data written since the last sync
           dec,       \* page images are decoded (FALSE: long runs that record headers and hooks only)
           use,       \* growth bookkeeping for cyclic workloads (C10): [first, prevnp, pinned, n]
-          initing    \* init_file is creating the file (between init:created and init:synced)
+          initing,   \* init_file is creating the file (between init:created and init:synced)
+          fh         \* [h, len, wrote]: last hash of the file bytes, its length, a write seen since
 
-tvars == <<l, ps, pgs, metas, live, shFree, shPend, readers, w, dirty, dec, use, initing>>
+tvars == <<l, ps, pgs, metas, live, shFree, shPend, readers, w, dirty, dec, use, initing, fh>>
 
 NoW == [txid |-> 0]
+NoFh == [h |-> "", len |-> -1, wrote |-> TRUE]
 NoUse == [first |-> -1, prevnp |-> -1, pinned |-> FALSE, n |-> 0, maxnp |-> 0]
 BadMeta == [txid |-> -1]
 BIG == 1000000000
@@ -138,7 +140,7 @@ TInit ==
     /\ l = 1 /\ ps = 1024
     /\ pgs = <<>> /\ metas = [s \in {0, 1} |-> BadMeta] /\ live = <<>>
     /\ shFree = {} /\ shPend = <<>> /\ readers = <<>> /\ w = NoW /\ dirty = FALSE
-    /\ dec = TRUE /\ use = NoUse /\ initing = FALSE
+    /\ dec = TRUE /\ use = NoUse /\ initing = FALSE /\ fh = NoFh
 
 IsEv(e) == l <= Len(Rec) /\ Rec[l].ev = e /\ l' = l + 1
 Ev == Rec[l]
@@ -151,7 +153,7 @@ TReset ==      \* a new history on a fresh file
     /\ ps' = Ev.pagesize
     /\ pgs' = <<>> /\ metas' = [s \in {0, 1} |-> BadMeta] /\ live' = <<>>
     /\ shFree' = {} /\ shPend' = <<>> /\ readers' = <<>> /\ w' = NoW /\ dirty' = FALSE
-    /\ dec' = (IF "decode" \in DOMAIN Ev THEN Ev.decode ELSE TRUE) /\ use' = NoUse /\ initing' = FALSE
+    /\ dec' = (IF "decode" \in DOMAIN Ev THEN Ev.decode ELSE TRUE) /\ use' = NoUse /\ initing' = FALSE /\ fh' = NoFh
 
 \* a trace that starts on an existing file: the independent parse of that file
 TSeed ==
@@ -161,25 +163,25 @@ TSeed ==
                  Ev.pages[CHOOSE i \in 1..Len(Ev.pages) : Ev.pages[i][1] = p][2]]
     /\ metas' = [s \in {0, 1} |-> MetaOf(Ev.metas[s + 1])]
     /\ live' = <<>> /\ shFree' = {} /\ shPend' = <<>> /\ readers' = <<>> /\ w' = NoW /\ dirty' = FALSE
-    /\ dec' = TRUE /\ use' = NoUse /\ initing' = FALSE
+    /\ dec' = TRUE /\ use' = NoUse /\ initing' = FALSE /\ fh' = NoFh
 
 \* DBInner::open has chosen a header: PageStore!Recover
 TOpenMeta ==
     /\ IsEv("open:meta")
     /\ Check(CurSlot >= 0, "no-valid-header", <<>>)
-    /\ IF CurSlot < 0 THEN UNCHANGED <<ps, pgs, metas, live, shFree, shPend, readers, w, dirty, dec, use, initing>>
+    /\ IF CurSlot < 0 THEN UNCHANGED <<ps, pgs, metas, live, shFree, shPend, readers, w, dirty, dec, use, initing, fh>>
        ELSE IF ~dec
        THEN \* without page contents: the list reloaded is the list the last commit persisted
             /\ Check(Ev.tx_id = CurMeta.txid /\ Ev.slot = CurSlot, "header-choice", <<Ev.tx_id, Ev.slot>>)
             /\ shFree' = shFree \cup UnionAll(shPend) /\ shPend' = <<>> /\ readers' = <<>> /\ w' = NoW
-            /\ UNCHANGED <<ps, pgs, metas, live, dirty, dec, use, initing>>
+            /\ UNCHANGED <<ps, pgs, metas, live, dirty, dec, use, initing, fh>>
        ELSE LET m == CurMeta
                 s == Snapshot(pgs, m) IN
             /\ Check(Ev.tx_id = m.txid /\ Ev.slot = CurSlot, "header-choice", <<Ev.tx_id, Ev.slot, m.txid, CurSlot>>)
             /\ Check(s.errs = {}, "structure-at-open", s.errs)
             /\ shFree' = s.flist /\ shPend' = <<>> /\ readers' = <<>> /\ w' = NoW
             /\ live' = (m.txid :> s.pages) @@ live
-            /\ UNCHANGED <<ps, pgs, metas, dirty, dec, use, initing>>
+            /\ UNCHANGED <<ps, pgs, metas, dirty, dec, use, initing, fh>>
 
 \* Tx::new has read the header
 TMetaRead ==
@@ -193,7 +195,7 @@ TMetaRead ==
                      alloc |-> {}, written |-> {}, np |-> CurMeta.np, fl |-> CurMeta.fl,
                      phase |-> "open", metaSynced |-> FALSE]
        ELSE UNCHANGED w
-    /\ UNCHANGED <<ps, pgs, metas, live, shFree, shPend, readers, dirty, dec, use, initing>>
+    /\ UNCHANGED <<ps, pgs, metas, live, shFree, shPend, readers, dirty, dec, use, initing, fh>>
 
 Snaps == {readers[i] : i \in 1..Len(readers)}
 
@@ -209,13 +211,13 @@ TRelease ==
                           live[readers[i]] \cap UNION {w.pend[t] : t \in rel} = {},
                      "reader-page-released", <<b, readers>>)
             /\ w' = [w EXCEPT !.free = @ \cup UNION {w.pend[t] : t \in rel}, !.pend = pend2]
-    /\ UNCHANGED <<ps, pgs, metas, live, shFree, shPend, readers, dirty, dec, use, initing>>
+    /\ UNCHANGED <<ps, pgs, metas, live, shFree, shPend, readers, dirty, dec, use, initing, fh>>
 
 \* a read-only transaction is ready / goes away (hooks outside the registry code)
 TReady ==
     /\ IsEv("tx:ready")
     /\ IF Ev.w = 0 THEN readers' = Append(readers, Ev.tx_id) ELSE UNCHANGED readers
-    /\ UNCHANGED <<ps, pgs, metas, live, shFree, shPend, w, dirty, dec, use, initing>>
+    /\ UNCHANGED <<ps, pgs, metas, live, shFree, shPend, w, dirty, dec, use, initing, fh>>
 
 RemoveOne(seq, x) ==
     LET idx == {i \in 1..Len(seq) : seq[i] = x} IN
@@ -226,7 +228,7 @@ TDropEnter ==
     /\ IsEv("drop:enter")
     /\ IF Ev.w = 0 THEN readers' = RemoveOne(readers, Ev.tx_id) /\ UNCHANGED w
        ELSE readers' = readers /\ w' = NoW
-    /\ UNCHANGED <<ps, pgs, metas, live, shFree, shPend, dirty, dec, use, initing>>
+    /\ UNCHANGED <<ps, pgs, metas, live, shFree, shPend, dirty, dec, use, initing, fh>>
 
 TFree ==
     /\ IsEv("fl:free")
@@ -236,7 +238,7 @@ TFree ==
             /\ Check(run \cap (w.free \cup UnionAll(w.pend)) = {}, "double-free", <<Ev.page, Ev.n>>)
             /\ Check(\A x \in run : x >= 2, "free-of-header-page", <<Ev.page, Ev.n>>)
             /\ w' = [w EXCEPT !.tree = @ \ run, !.pend = AddPend(w.pend, w.txid, run)]
-    /\ UNCHANGED <<ps, pgs, metas, live, shFree, shPend, readers, dirty, dec, use, initing>>
+    /\ UNCHANGED <<ps, pgs, metas, live, shFree, shPend, readers, dirty, dec, use, initing, fh>>
 
 \* pages of every snapshot that must stay untouched: the current header's (what a crash now
 \* recovers to) and every open reader's.  The OLDER header's pages are recycled by design as
@@ -255,17 +257,17 @@ TAlloc ==
                      <<Ev.num_pages, w.np>>)
             /\ w' = [w EXCEPT !.free = @ \ run, !.tree = @ \cup run, !.alloc = @ \cup run,
                               !.np = Ev.num_pages]
-    /\ UNCHANGED <<ps, pgs, metas, live, shFree, shPend, readers, dirty, dec, use, initing>>
+    /\ UNCHANGED <<ps, pgs, metas, live, shFree, shPend, readers, dirty, dec, use, initing, fh>>
 
 TFlAlloc ==
     /\ IsEv("commit:fl_alloc")
     /\ w' = IF w = NoW THEN w ELSE [w EXCEPT !.fl = Ev.page, !.phase = "data"]
-    /\ UNCHANGED <<ps, pgs, metas, live, shFree, shPend, readers, dirty, dec, use, initing>>
+    /\ UNCHANGED <<ps, pgs, metas, live, shFree, shPend, readers, dirty, dec, use, initing, fh>>
 
 \* the file must be long enough before anything beyond the old end is written (C16 growth)
 TSized ==
     /\ IsEv("commit:sized")
-    /\ UNCHANGED <<ps, pgs, metas, live, shFree, shPend, readers, w, dirty, dec, use, initing>>
+    /\ UNCHANGED <<ps, pgs, metas, live, shFree, shPend, readers, w, dirty, dec, use, initing, fh>>
 
 TWritePage ==
     /\ IsEv("write") /\ Ev.kind = "page"
@@ -278,19 +280,21 @@ TWritePage ==
             /\ Check(Ev.aligned, "unaligned-write", <<Ev.page>>)
             /\ Check(w = NoW \/ run \subseteq w.alloc, "write-outside-allocation", <<Ev.page, Ev.n>>)
             /\ Check(run \cap Protected = {}, "live-page-overwritten", <<Ev.page, Ev.n>>)
-            /\ Check(Ev.page + Ev.n <= Ev.flen, "write-beyond-end-of-file", <<Ev.page, Ev.n, Ev.flen>>)
+            \* the file must have been extended (and re-mapped) before anything is written there
+            /\ Check(Ev.fits, "write-beyond-end-of-file", <<Ev.page, Ev.n, Ev.flen>>)
             /\ Check(w = NoW \/ w.phase = "data", "data-write-after-header", <<Ev.page>>)
             /\ Check(Ev.pg.ov + 1 >= Ev.n, "run-longer-than-overflow", <<Ev.page, Ev.n>>)
             /\ pgs' = (Ev.page :> Ev.pg) @@ pgs
             /\ w' = IF w = NoW THEN w ELSE [w EXCEPT !.written = @ \cup {Ev.page}]
             /\ dirty' = TRUE
     /\ UNCHANGED <<ps, metas, live, shFree, shPend, readers, dec, use, initing>>
+    /\ fh' = [fh EXCEPT !.wrote = TRUE]
 
 TSync ==
     /\ IsEv("sync")
     /\ dirty' = FALSE
     /\ w' = IF w # NoW /\ w.phase = "meta-written" THEN [w EXCEPT !.metaSynced = TRUE] ELSE w
-    /\ UNCHANGED <<ps, pgs, metas, live, shFree, shPend, readers, dec, use, initing>>
+    /\ UNCHANGED <<ps, pgs, metas, live, shFree, shPend, readers, dec, use, initing, fh>>
 
 TWriteMeta ==
     /\ IsEv("write") /\ Ev.kind = "meta"
@@ -318,6 +322,7 @@ TWriteMeta ==
             /\ live' = IF dec /\ m.txid >= 0 THEN (m.txid :> s.pages) @@ live ELSE live
             /\ w' = [w EXCEPT !.phase = "meta-written"]
     /\ UNCHANGED <<ps, pgs, shFree, shPend, readers, dirty, dec, use, initing>>
+    /\ fh' = [fh EXCEPT !.wrote = TRUE]
 
 TPublished ==
     /\ IsEv("commit:published")
@@ -326,13 +331,13 @@ TPublished ==
             \* be visible in the file although commit reports the failure)
             /\ Check(w.phase = "meta-written", "publish-before-header", <<w.txid>>)
             /\ shFree' = w.free /\ shPend' = w.pend
-    /\ UNCHANGED <<ps, pgs, metas, live, readers, w, dirty, dec, use, initing>>
+    /\ UNCHANGED <<ps, pgs, metas, live, readers, w, dirty, dec, use, initing, fh>>
 
 \* commit is about to return Ok: the header must have been synced
 TCommitDone ==
     /\ IsEv("commit:done")
     /\ IF w = NoW THEN TRUE ELSE Check(w.metaSynced, "commit-ok-before-header-sync", <<w.txid>>)
-    /\ UNCHANGED <<ps, pgs, metas, live, shFree, shPend, readers, w, dirty, dec, use, initing>>
+    /\ UNCHANGED <<ps, pgs, metas, live, shFree, shPend, readers, w, dirty, dec, use, initing, fh>>
 
 \* with no writer inside, the shared lists are what the current header persisted (C11)
 FLConsistentNow ==
@@ -347,7 +352,7 @@ TDropDone ==
     /\ IF Ev.w = 1 /\ CurSlot >= 0
        THEN Check(FLConsistentNow, "shared-freelist-vs-header", <<shFree, shPend, CurMeta.txid>>)
        ELSE TRUE
-    /\ UNCHANGED <<ps, pgs, metas, live, shFree, shPend, readers, w, dirty, dec, use, initing>>
+    /\ UNCHANGED <<ps, pgs, metas, live, shFree, shPend, readers, w, dirty, dec, use, initing, fh>>
 
 \* the final whole-file parse must show what the write events built
 TParse ==
@@ -360,7 +365,7 @@ TParse ==
           /\ Check(\A s \in {0, 1} : MetaOf(Ev.metas[s + 1]).txid = metas[s].txid, "file-headers", <<>>)
           /\ Check(\A i \in 1..Len(P) : P[i][1] \in DOMAIN pgs /\ same(pgs[P[i][1]], P[i][2]), "file-page-differs",
                    {P[i][1] : i \in {j \in 1..Len(P) : ~(P[j][1] \in DOMAIN pgs /\ same(pgs[P[j][1]], P[j][2]))}})
-    /\ UNCHANGED <<ps, pgs, metas, live, shFree, shPend, readers, w, dirty, dec, use, initing>>
+    /\ UNCHANGED <<ps, pgs, metas, live, shFree, shPend, readers, w, dirty, dec, use, initing, fh>>
 
 \* C10: a cyclic workload returns to the same logical content at every "cycle" marker.  Pages in
 \* use (high-water mark minus free and pending) must not grow with the number of cycles, and
@@ -379,20 +384,30 @@ TCycle ==
                    "file-grows-with-bounded-data", <<use.n, CurMeta.np, u, use.first>>)
           /\ use' = [first |-> IF use.n = 1 THEN u ELSE use.first, prevnp |-> CurMeta.np, pinned |-> pin,
                      n |-> use.n + 1, maxnp |-> IF pin THEN CurMeta.np ELSE use.maxnp]
-    /\ UNCHANGED <<ps, pgs, metas, live, shFree, shPend, readers, w, dirty, dec, initing>>
+    /\ UNCHANGED <<ps, pgs, metas, live, shFree, shPend, readers, w, dirty, dec, initing, fh>>
 
 TInitFile ==
     /\ l <= Len(Rec) /\ Rec[l].ev \in {"init:created", "init:synced"} /\ l' = l + 1
     /\ initing' = (Rec[l].ev = "init:created")
-    /\ UNCHANGED <<ps, pgs, metas, live, shFree, shPend, readers, w, dirty, dec, use>>
+    /\ UNCHANGED <<ps, pgs, metas, live, shFree, shPend, readers, w, dirty, dec, use, fh>>
 
-Known == {"reset", "seed", "cycle", "init:created", "init:synced", "open:meta", "tx:meta_read", "fl:release", "tx:ready", "drop:enter", "fl:free", "fl:alloc",
+\* C06: the bytes (and the length) of the file change only through the writes of a commit or of
+\* file creation.  The driver hashes the file around rollbacks, read-only transactions, failed
+\* calls and re-opens.
+TFileHash ==
+    /\ IsEv("filehash")
+    /\ Check(fh.len < 0 \/ fh.wrote \/ (fh.h = Ev.h /\ fh.len = Ev.len), "file-changed-without-a-commit",
+             <<fh.len, Ev.len, Ev.at>>)
+    /\ fh' = [h |-> Ev.h, len |-> Ev.len, wrote |-> FALSE]
+    /\ UNCHANGED <<ps, pgs, metas, live, shFree, shPend, readers, w, dirty, dec, use, initing>>
+
+Known == {"reset", "seed", "cycle", "filehash", "init:created", "init:synced", "open:meta", "tx:meta_read", "fl:release", "tx:ready", "drop:enter", "fl:free", "fl:alloc",
           "commit:fl_alloc", "commit:sized", "write", "sync", "commit:published", "commit:done", "drop:done", "parse"}
 TOther ==
     /\ l <= Len(Rec) /\ Rec[l].ev \notin Known /\ l' = l + 1
-    /\ UNCHANGED <<ps, pgs, metas, live, shFree, shPend, readers, w, dirty, dec, use, initing>>
+    /\ UNCHANGED <<ps, pgs, metas, live, shFree, shPend, readers, w, dirty, dec, use, initing, fh>>
 
-TNext == TReset \/ TSeed \/ TCycle \/ TInitFile \/ TOpenMeta \/ TMetaRead \/ TRelease \/ TReady \/ TDropEnter \/ TFree \/ TAlloc \/ TFlAlloc
+TNext == TReset \/ TSeed \/ TFileHash \/ TCycle \/ TInitFile \/ TOpenMeta \/ TMetaRead \/ TRelease \/ TReady \/ TDropEnter \/ TFree \/ TAlloc \/ TFlAlloc
          \/ TSized \/ TWritePage \/ TSync \/ TWriteMeta \/ TPublished \/ TCommitDone \/ TDropDone \/ TParse \/ TOther
 
 TSpec == TInit /\ [][TNext]_tvars
